@@ -2,6 +2,9 @@
 model and implementation (project), the pinned theorem names of coq/props/Cnn.v, evidence text."""
 import gens, json, os, re, subprocess
 
+def trip(line):      # the three components of a PURL-producing line, padded (a whole-case PANIC has only one)
+    p = line.split(' ## ')
+    return p + ['-'] * (3 - len(p)) if len(p) < 3 else p
 def main(line):      # first component of a triple line
     return line.split(' ## ')[0]
 def fields(show):    # 'O a|b|..' -> list, else None
@@ -43,12 +46,12 @@ def impl_accepts(sel):
     implementation accepts is an acceptance mismatch: it is C05's (and C02's) to report; for this property the theorem does not transfer to that
     input and the executable oracle alone decides it (counted in the evidence as acceptance_mismatches)."""
     def cmp(c, a, m):
-        pa = a.split(' ## '); pm = m.split(' ## ')
+        pa = trip(a); pm = trip(m)
         acc = lambda p: (p[-1] if c.startswith('H ') else p[0]).startswith('O ')
         if not acc(pa): return 'skip'
         if not acc(pm): return 'mismatch'
         return sel(c, pa) == sel(c, pm)
-    cmp.obs = lambda c, a: sel(c, a.split(' ## ')) if (a.split(' ## ')[-1] if c.startswith('H ') else a.split(' ## ')[0]).startswith('O ') else None
+    cmp.obs = lambda c, a: sel(c, trip(a)) if (a.split(' ## ')[-1] if c.startswith('H ') else a.split(' ## ')[0]).startswith('O ') else None
     return cmp
 def from_project(proj):
     def cmp(c, a, m):
@@ -92,7 +95,7 @@ PROPS['C07'] = dict(
 
 # ------------------------------------------------------------------ helpers for the remaining properties
 def both(sel):
-    def proj(c, line, is_impl): return sel(c, line.split(' ## '))
+    def proj(c, line, is_impl): return sel(c, trip(line))
     return proj
 def whole(c, line, is_impl): return line
 def err_class(c, p):     # acceptance or the error variant only
